@@ -55,6 +55,23 @@ def main(argv=None):
         if args.replay:
             with open(args.replay) as f:
                 rec = json.load(f)
+            core.snapshot_library_state()
+            if rec.get("kind") == "shard-history":
+                import base64
+                import pickle
+                arg = pickle.loads(base64.b64decode(rec["arg_pickle_b64"]))
+                acc = core._run_shard((rec["shard_module"], rec["shard_fn"], arg, args.pid))
+                want = json.dumps([rec["clause"], rec["site"], rec["case"]], sort_keys=True)
+                hit = [v for v in acc.viol
+                       if json.dumps([v["clause"], v["site"], v["case"]], sort_keys=True) == want]
+                for v in hit:
+                    print("replay (shard history): clause=%s site=%s observed=%s expected=%s" % (
+                        v["clause"], v["site"], json.dumps(v["observed"])[:400], json.dumps(v["expected"])[:400]))
+                if hit:
+                    print("VIOLATION property=%s replay=%s" % (args.pid, args.replay))
+                    return 1
+                print("replay: no violation")
+                return 0
             acc = core.Acc(args.pid)
             import signal
             signal.signal(signal.SIGALRM, core._on_alarm)
